@@ -271,17 +271,44 @@ theorem dtOpOffset_indep (b1 b2 : Bool) (s : Instr)
       rw [decide_eq_false_iff_not]; exact Nat.not_lt.mpr hle
     simp only [hgt, Bool.false_and]
 
+/-- facts about `dtNeg32`: only `cons`/`reducedImm` change, and the plain-ness condition survives -/
+theorem dtNeg32_facts (x : Instr) :
+    (dtNeg32 x).opd0 = x.opd0 ∧ (dtNeg32 x).memDisp = x.memDisp ∧ (dtNeg32 x).key = x.key ∧
+    (dtNeg32 x).narrowOk = x.narrowOk ∧ AddrSame (dtNeg32 x) x ∧
+    (((x.opd0.reg &&& c_MODE_MASK) < c_reg64 ∨ c_MAX_UNSIGNED_32BIT < x.cons) →
+     ((dtNeg32 x).opd0.reg &&& c_MODE_MASK) < c_reg64 ∨ c_MAX_UNSIGNED_32BIT < (dtNeg32 x).cons) := by
+  unfold dtNeg32
+  dsimp only
+  split
+  · rename_i hc
+    refine ⟨rfl, rfl, rfl, rfl, ⟨rfl, rfl, rfl, rfl, rfl, rfl⟩, fun _ => Or.inl ?_⟩
+    simp only [Bool.and_eq_true, Bool.or_eq_true, beq_iff_eq] at hc
+    rcases hc.2 with h32 | h32
+    · show (x.opd0.reg &&& c_MODE_MASK) < c_reg64
+      rw [h32]; decide
+    · show (x.opd0.reg &&& c_MODE_MASK) < c_reg64
+      rw [h32]; decide
+  · exact ⟨rfl, rfl, rfl, rfl, AddrSame.refl x, fun h => h⟩
+
+theorem effNasm_congr (o : Nat) (a b : Instr) (h : a.narrowOk = b.narrowOk) : effNasm o a = effNasm o b := by
+  unfold effNasm; rw [h]
+
 theorem encodeImmDataTransfer_indep (o1 o2 : Nat) (s : Instr) (h : DtPlain s) :
     encodeImmDataTransfer o1 s = encodeImmDataTransfer o2 s := by
   unfold encodeImmDataTransfer
   dsimp only
   split
   · rfl
-  · generalize hx : ({ s with rdOffset := s.opd0.reg &&& c_VALUE_MASK } : Instr) = x
-    have hx0 : x.opd0 = s.opd0 := by rw [← hx]
-    have hxm : x.memDisp = s.memDisp := by rw [← hx]
-    have hxk : x.key = s.key := by rw [← hx]
-    have hxc : x.cons = s.cons := by rw [← hx]
+  · generalize hx : ({ s with rdOffset := s.opd0.reg &&& c_VALUE_MASK } : Instr) = x0
+    have hx0' : x0.opd0 = s.opd0 := by rw [← hx]
+    have hxm' : x0.memDisp = s.memDisp := by rw [← hx]
+    have hxk' : x0.key = s.key := by rw [← hx]
+    have hxc' : x0.cons = s.cons := by rw [← hx]
+    obtain ⟨f0, fm, fk, _, _, fp⟩ := dtNeg32_facts x0
+    generalize dtNeg32 x0 = x at f0 fm fk fp
+    have hx0 : x.opd0 = s.opd0 := f0.trans hx0'
+    have hxm : x.memDisp = s.memDisp := fm.trans hxm'
+    have hxk : x.key = s.key := fk.trans hxk'
     cases hmd : s.memDisp with
     | true =>
       rw [dtSelect_indep (effNasm o1 x) (effNasm o2 x) x (Or.inl (hxm.trans hmd))]
@@ -290,7 +317,7 @@ theorem encodeImmDataTransfer_indep (o1 o2 : Nat) (s : Instr) (h : DtPlain s) :
       rcases h with hm | ⟨hlt, hrow⟩
       · rw [hmd] at hm; exact absurd hm (by decide)
       · have hlt' : (x.opd0.reg &&& c_MODE_MASK) < c_reg64 ∨ c_MAX_UNSIGNED_32BIT < x.cons := by
-          rw [hx0, hxc]; exact hlt
+          apply fp; rw [hx0', hxc']; exact hlt
         rw [dtSelect_key _ x hlt' (hxm.trans hmd), dtSelect_key _ x hlt' (hxm.trans hmd)]
         apply dtOpOffset_indep
         right
@@ -322,12 +349,18 @@ theorem encodeImmDataTransfer_same (o : Nat) (s : Instr) (h : DtPlain s) :
   dsimp only
   split
   · exact ⟨rfl, rfl, rfl, rfl, rfl, rfl⟩
-  · have h' : s.memDisp = true ∨ (s.opd0.reg &&& c_MODE_MASK) < c_reg64 ∨ c_MAX_UNSIGNED_32BIT < s.cons := by
+  · generalize hx : ({ s with rdOffset := s.opd0.reg &&& c_VALUE_MASK } : Instr) = x0
+    have hxs : AddrSame x0 s := by rw [← hx]; exact ⟨rfl, rfl, rfl, rfl, rfl, rfl⟩
+    have hx0' : x0.opd0 = s.opd0 := by rw [← hx]
+    have hxm' : x0.memDisp = s.memDisp := by rw [← hx]
+    have hxc' : x0.cons = s.cons := by rw [← hx]
+    obtain ⟨_, fm, _, _, fs, fp⟩ := dtNeg32_facts x0
+    have h' : (dtNeg32 x0).memDisp = true ∨ ((dtNeg32 x0).opd0.reg &&& c_MODE_MASK) < c_reg64 ∨
+        c_MAX_UNSIGNED_32BIT < (dtNeg32 x0).cons := by
       rcases h with h | h
-      · exact Or.inl h
-      · exact Or.inr h.1
-    refine (dtOpOffset_same _ _).trans ((dtSelect_same _ _ ?_).trans ⟨rfl, rfl, rfl, rfl, rfl, rfl⟩)
-    exact h'
+      · exact Or.inl (fm.trans (hxm'.trans h))
+      · exact Or.inr (fp (by rw [hx0', hxc']; exact h.1))
+    exact (dtOpOffset_same _ _).trans ((dtSelect_same _ _ h').trans (fs.trans hxs))
 
 /-- the class step of encode_imm does not read the mov-immediate option, or reads it where it
     cannot matter -/
@@ -425,6 +458,12 @@ theorem xchgAdjust_plain (s : Instr) (h : Plain s) : Plain (xchgAdjust s) := by
         | 3, _ => exact h3
   · exact h
 
+theorem movzxAdjust_same (s : Instr) : AddrSame (movzxAdjust s) s := by
+  unfold movzxAdjust
+  dsimp only
+  repeat' split
+  all_goals exact ⟨rfl, rfl, rfl, rfl, rfl, rfl⟩
+
 theorem dispatchEnc_indep (o1 o2 : Nat) (s : Instr) (h : Plain s) : dispatchEnc o1 s = dispatchEnc o2 s := by
   unfold dispatchEnc
   dsimp only
@@ -444,7 +483,7 @@ theorem encodeOperands_indep (o1 o2 : Nat) (s : Instr) (h : Plain s) :
   dsimp only
   apply dispatchEnc_indep
   split
-  · exact Plain.of_same (autoSetByte_same _) (xchgAdjust_plain s h)
-  · exact xchgAdjust_plain s h
+  · exact Plain.of_same ((autoSetByte_same _).trans (movzxAdjust_same _)) (xchgAdjust_plain s h)
+  · exact Plain.of_same (movzxAdjust_same _) (xchgAdjust_plain s h)
 
 end AL.Lemmas
